@@ -803,7 +803,13 @@ pub fn worker_main(a: WorkerArgs) -> i32 {
         .expect("spawn case thread");
 
     // watchdog loop
+    // A case is reported as hanging when it has been running for more than the timeout of wall time AND
+    // this process burnt at least half of that as CPU time since the case started (so a worker that is
+    // merely starved on a loaded machine is not reported), or after ten times the timeout regardless
+    // (a deadlock burns no CPU). Either way the verdict is INCONCLUSIVE, never a violation.
     let timeout = Duration::from_secs(prop.case_timeout_s);
+    let mut seen_idx = u64::MAX;
+    let mut cpu_at_change = process_cpu_seconds();
     loop {
         std::thread::sleep(Duration::from_millis(50));
         if done.load(Ordering::SeqCst) == 1 {
@@ -812,8 +818,16 @@ pub fn worker_main(a: WorkerArgs) -> i32 {
         if handle.is_finished() {
             break;
         }
+        let cur = progress.load(Ordering::SeqCst);
+        if cur != seen_idx {
+            seen_idx = cur;
+            cpu_at_change = process_cpu_seconds();
+        }
         let st = *started.lock().unwrap();
-        if st.elapsed() > timeout {
+        let wall = st.elapsed();
+        if wall > timeout
+            && (wall > timeout * 10 || process_cpu_seconds() - cpu_at_change >= timeout.as_secs_f64() / 2.0)
+        {
             let idx = progress.load(Ordering::SeqCst);
             println!("{}", json!({"hang": idx}));
             let _ = std::io::stdout().flush();
@@ -829,6 +843,18 @@ pub fn worker_main(a: WorkerArgs) -> i32 {
         }
         None => 4,
     }
+}
+
+/// CPU time (user + system) consumed by this process so far, from /proc/self/stat; 0 if unavailable.
+fn process_cpu_seconds() -> f64 {
+    let Ok(stat) = std::fs::read_to_string("/proc/self/stat") else { return 0.0 };
+    // the command name (field 2) may contain spaces: fields are counted after the closing parenthesis
+    let Some(rest) = stat.rsplit_once(')').map(|x| x.1) else { return 0.0 };
+    let f: Vec<&str> = rest.split_whitespace().collect();
+    // rest starts at field 3 (state): utime is field 14, stime field 15
+    let ut: f64 = f.get(11).and_then(|x| x.parse().ok()).unwrap_or(0.0);
+    let stt: f64 = f.get(12).and_then(|x| x.parse().ok()).unwrap_or(0.0);
+    (ut + stt) / 100.0
 }
 
 pub fn truncate(s: &str, n: usize) -> String {
@@ -862,6 +888,7 @@ struct Merged {
     failures: Vec<Failure>,
     inconclusive: Vec<String>,
     per_stage: BTreeMap<String, u64>,
+    notes: Vec<String>,
 }
 
 fn merge_worker(m: &mut Merged, v: &Value, stage_name: &str) {
@@ -982,6 +1009,7 @@ pub fn run_property(prop: &'static Prop, tier: Tier, seed: u64, exe: &str) -> Ru
         failures: vec![],
         inconclusive: vec![],
         per_stage: BTreeMap::new(),
+        notes: vec![],
     };
     let mut lines: Vec<String> = vec![];
 
@@ -1069,7 +1097,17 @@ pub fn run_property(prop: &'static Prop, tier: Tier, seed: u64, exe: &str) -> Ru
                         break;
                     }
                     WorkerResult::Hang(idx) => {
-                        merged.lock().unwrap().inconclusive.push(format!("watchdog: stage={} index={} exceeded {}s", stage_name, idx, prop.case_timeout_s));
+                        // re-run the case alone: only a case that trips the watchdog twice is inconclusive
+                        match run_worker(&cfg, chunk.stage, idx, idx + 1, true) {
+                            WorkerResult::Ok(v) => {
+                                let mut m = merged.lock().unwrap();
+                                merge_worker(&mut m, &v, stage_name);
+                                m.notes.push(format!("watchdog tripped at stage={} index={} but the case completes when re-run alone (machine load)", stage_name, idx));
+                            }
+                            _ => {
+                                merged.lock().unwrap().inconclusive.push(format!("watchdog: stage={} index={} exceeded {}s (twice)", stage_name, idx, prop.case_timeout_s));
+                            }
+                        }
                         // the cases before idx are lost from the counts; continue after it
                         start = idx + 1;
                     }
@@ -1127,7 +1165,7 @@ pub fn run_property(prop: &'static Prop, tier: Tier, seed: u64, exe: &str) -> Ru
     let cfg = Arc::try_unwrap(cfg).ok().expect("threads joined");
 
     // 3. custom stage
-    let mut notes: Vec<String> = vec![];
+    let mut notes: Vec<String> = std::mem::take(&mut merged.notes);
     if let Some(custom) = prop.custom {
         let rep = custom(&cfg);
         merged.evals += rep.evaluations;
